@@ -156,6 +156,7 @@ class Bench:
         fsm_seen = log.fsm_vectors
         drivers = [a.drive for a in actors if hasattr(a, "drive")]
         observers = [a.observe for a in actors if hasattr(a, "observe")]
+        reactors = [a.react for a in actors if hasattr(a, "react")]
 
         for i, v in enumerate(cur):
             in_slots[i].update(v & in_masks[i])
@@ -190,6 +191,29 @@ class Bench:
             else:
                 vals = [sl.curr for sl in out_slots]
             sample = dict(zip(out_names, vals))
+            if reactors:
+                # combinational environment: an actor may answer the settled outputs of this very cycle (e.g. user logic
+                # that gates a request with the DUT's `idle` output); one pass, then the design is re-settled
+                changed = False
+                for react in reactors:
+                    d = react(t, sample)
+                    if d:
+                        for k, v in d.items():
+                            i = in_index[k]
+                            v &= in_masks[i]
+                            if cur[i] != v:
+                                cur[i] = v
+                                in_slots[i].update(v)
+                                changed = True
+                if changed:
+                    eng.step_design()
+                    if out_expr:
+                        vals = [sl.curr if sl is not None else 0 for sl in out_slots]
+                        for i, e in out_expr:
+                            vals[i] = eng.get_value(e)
+                    else:
+                        vals = [sl.curr for sl in out_slots]
+                    sample = dict(zip(out_names, vals))
             h.update(repr((cur, vals)).encode())
             if fsm_slots:
                 fsm_seen.add(tuple(sl.curr for sl in fsm_slots))
@@ -220,6 +244,7 @@ class Bench:
         h = hashlib.blake2b(digest_size=16)
         drivers = [a.drive for a in actors if hasattr(a, "drive")]
         observers = [a.observe for a in actors if hasattr(a, "observe")]
+        reactors = [a.react for a in actors if hasattr(a, "react")]
         bench = self
 
         async def tb(ctx):
@@ -243,6 +268,21 @@ class Bench:
                     v = ctx.get(s)
                     vals.append(int(v))
                 sample = dict(zip(bench.out_names, vals))
+                if reactors:
+                    changed = False
+                    for react in reactors:
+                        d = react(t, sample)
+                        if d:
+                            for k, v in d.items():
+                                i = in_index[k]
+                                v &= bench._in_masks[i]
+                                if cur[i] != v:
+                                    cur[i] = v
+                                    ctx.set(bench.in_sigs[i], v)
+                                    changed = True
+                    if changed:
+                        vals = [int(ctx.get(s)) for s in bench.out_sigs]
+                        sample = dict(zip(bench.out_names, vals))
                 h.update(repr((cur, vals)).encode())
                 if bench.fsm_sigs:
                     log.fsm_vectors.add(tuple(int(ctx.get(s)) for s in bench.fsm_sigs))
